@@ -10,12 +10,14 @@ from vf.gen import programs as P
 COMMON = ["x", "foo", "bar1", "(", ")", "{", "}", "[", "]", ";", ",", ".", ":", "=", "=>", "->", "<", ">", "+", "*", "\n", "\n", " ", "  ", "    ", "\t",
           "\"", "'", "\\", "\\\n", "0", "1.5", "//", "/*", "*/", "#", "\r\n", "\x0c", "é", "\u2028"]
 PER_LANG = {
-    "C": ["int", "void", "static", "struct", "if", "else", "for", "while", "return", "#define", "#include", "typedef", "switch", "case"],
-    "C++": ["int", "void", "class", "struct", "namespace", "template", "typename", "::", "operator", "const", "virtual", "if", "for", "return", "auto", "[&]"],
+    "C": ["int", "void", "static", "struct", "if", "else", "for", "while", "return", "#define", "#include", "typedef", "switch", "case", "#if 0\n", "#endif\n", "#else\n"],
+    "C++": ["int", "void", "class", "struct", "namespace", "template", "typename", "::", "operator", "const", "virtual", "if", "for", "return", "auto", "[&]", "#if 0\n", "#endif\n"],
     "C#": ["class", "namespace", "public", "static", "void", "int", "async", "using", "new", "if", "else", "foreach", "return", "=>", "get;", "set;"],
     "Java": ["class", "interface", "public", "static", "void", "int", "throws", "new", "record", "@Override", "@Ann", "if", "else", "return", "->", "extends"],
-    "JavaScript": ["function", "const", "let", "async", "await", "class", "=>", "return", "if", "else", "for", "of", "`", "${", "static", "new", "get"],
-    "TypeScript": ["function", "const", "let", "async", "class", "interface", "=>", "return", ": number", ": string", "public", "private", "`", "${", "abstract", "?"],
+    "JavaScript": ["function", "const", "let", "async", "await", "class", "=>", "return", "if", "else", "for", "of", "`", "${", "static", "new", "get",
+                   "function:", "const:", "{function: 1}", ".function", ".const", "set", "yield", "<!--", "-->"],
+    "TypeScript": ["function", "const", "let", "async", "class", "interface", "=>", "return", ": number", ": string", "public", "private", "`", "${", "abstract", "?",
+                   "function:", "const:", "{function: 1}", "async:", "get", "set", "of", "type", "declare", "enum", "namespace", "readonly", "as"],
     "Python": ["def", "async", "class", "lambda", "return", "if", "else:", "elif", "for", "in", "while", "try:", "except", "with", "as", "pass", "@", '"""', "'''", "->", "import"],
 }
 
@@ -142,8 +144,9 @@ def header_cuts(lang):
         "TypeScript": "private async name(a: number, cb: (x: number) => void): Promise<void> {",
         "Python": "async def name(a, b=(1, (2, 3)), *args, **kwargs) -> Dict[str, int]:",
     }
-    extra = {"JavaScript": ["function name(a = {x: 1}) {", "x = (arr.map(a => a.b))", "const f = (cb = () => 0) => {"],
-             "TypeScript": ["function name(p: number): string {", "const f = (cb: (x) => void) => {", "c ? f(a) : g(a)"],
+    extra = {"JavaScript": ["function name(a = {x: 1}) {", "x = (arr.map(a => a.b))", "const f = (cb = () => 0) => {", "x = {function: 1, const: 2};", "o.function(1) {", "o.const = (a) => {"],
+             "TypeScript": ["function name(p: number): string {", "const f = (cb: (x) => void) => {", "c ? f(a) : g(a)", "x = {function: 1, const: 2, async: 3};",
+                            "interface I { function: number; const(a): void; }", "o.function(1) {"],
              "Python": ["def f(", "def f()", "def f():", "def f(a=\"(\"):", "class A:\n    def m(self"],
              "Java": ["void f() throws", "new Foo() {", "record P(int x) {"],
              "C": ["for_each(x, y) {", "int f(int (*cb)(int)"], "C++": ["bool operator()(T* l)", "template <typename T> T f(T a"], "C#": ["else if (x)\n{", "int Local(int b) {"]}
